@@ -32,6 +32,8 @@ type step struct {
 func genScript(r *gen.Rand, kg *mavlh.KeyGen) []step {
 	n := r.Range(2, gen.Scale(8, 14))
 	s := make([]step, n)
+	one := make([][]byte, n) // the key of a one-key state
+	empty := make([]bool, n) // the state after the step is empty
 	for i := range s {
 		p := i - 1
 		if r.Chance(1, 5) {
@@ -57,7 +59,31 @@ func genScript(r *gen.Rand, kg *mavlh.KeyGen) []step {
 		}
 		// every main-line block changes the state (a block that only re-writes existing values is the trigger shape
 		// of the known memTree defect; that shape is exercised by hunt(), not by the differential stream)
-		kvs = append(kvs, mavlh.KV{K: []byte(fmt.Sprintf("~m%03d", i)), V: r.Bytes(r.Range(1, 8))})
+		fresh := mavlh.KV{K: []byte(fmt.Sprintf("~m%03d", i)), V: r.Bytes(r.Range(1, 8))}
+		kvs = append(kvs, fresh)
+		// small states: the root of a state with exactly ONE key is a leaf (hashed by the leaf branch of Node.Hash, which
+		// has its own prefix rule), the empty state has the empty root.  On the empty state (and on a one-key state) the
+		// block sometimes writes one key only (once or several times), or nothing at all.
+		one[i] = nil
+		switch {
+		case p == -1 || empty[p]:
+			switch r.Pick(5, 3, 1, 1) {
+			case 1:
+				kvs, one[i] = []mavlh.KV{fresh}, fresh.K
+			case 2:
+				kvs, one[i] = []mavlh.KV{{K: fresh.K, V: r.Bytes(r.Range(0, 4))}, {K: fresh.K, V: r.Bytes(r.Range(0, 4))}, fresh}, fresh.K
+			case 3:
+				kvs, empty[i] = nil, true
+			}
+		case one[p] != nil && r.Chance(1, 2): // the one key again, with a value it did not have (8 bytes + counter)
+			kvs, one[i] = []mavlh.KV{{K: one[p], V: append(r.Bytes(9), byte(i))}}, one[p]
+		}
+		if one[i] != nil {
+			out.Stat("script_one_key_states", 1)
+		}
+		if empty[i] {
+			out.Stat("script_empty_states", 1)
+		}
 		h := int64(i + 1)
 		if r.Chance(1, 8) {
 			h = int64(r.Intn(40))
@@ -148,7 +174,9 @@ func runVariant(e *mavlh.Eng, r *gen.Rand, kg *mavlh.KeyGen, script []step, cfg 
 			root, st = e.MemSet(parent, s.height, s.kvs)
 			out.Stat("main_memset_commit", 1)
 			if len(st) > 5 && st[:5] == "root " {
-				if withNoise && r.Chance(1, 3) {
+				// (not around the empty root: the noise commits / rolls back empty pending updates of its own, which are the
+				// same pending entry)
+				if withNoise && len(root) > 0 && r.Chance(1, 3) {
 					noise(e, r, kg, known, &pending)
 				}
 				cst := e.Commit(root)
